@@ -946,12 +946,13 @@ func AdoptSession(p Persistence, c *Config) (client *Client, warn []error, fatal
 		var last uint
 		if len(publishKeys) != 0 {
 			last = publishKeys[len(publishKeys)-1] & publishIDMask
+			if last < txs.Received {
+				// range overflows address space
+				last += publishIDMask + 1
+			}
 		} else {
-			last = releaseKeys[len(releaseKeys)-1] & publishIDMask
-		}
-		if last < txs.Received {
-			// range overflows address space
-			last += publishIDMask + 1
+			// no PUBLISH pending after the last PUBREL
+			last = txs.Received - 1
 		}
 		seq := <-client.exactlyOnce.seqSem
 		seq.acceptN = last + 1
